@@ -155,11 +155,7 @@ func (t *Translator) convertSingleMessage(msg AnthropicMessage) ([]map[string]in
 
 	// user msgs can have text + tool results, assistant msgs have text + tool uses
 	if msg.Role == "user" {
-		userMsg, toolMsgs := t.convertUserMessage(contentBlocks)
-		if userMsg != nil {
-			result = append(result, userMsg)
-		}
-		result = append(result, toolMsgs...)
+		result = append(result, t.convertUserMessageInOrder(contentBlocks)...)
 	} else if msg.Role == "assistant" {
 		assistantMsg := t.convertAssistantMessage(contentBlocks)
 		if assistantMsg != nil {
@@ -168,6 +164,36 @@ func (t *Translator) convertSingleMessage(msg AnthropicMessage) ([]map[string]in
 	}
 
 	return result, nil
+}
+
+// convertUserMessageInOrder splits a user turn into maximal runs of blocks of one kind and converts
+// each run on its own, so text and tool results reach the backend in the order the client gave them
+// (anthropic puts the results of the previous turn's tool calls first, then the follow-up text)
+func (t *Translator) convertUserMessageInOrder(blocks []interface{}) []map[string]interface{} {
+	result := make([]map[string]interface{}, 0, 2)
+	isResult := func(block interface{}) bool {
+		blockMap, ok := block.(map[string]interface{})
+		if !ok {
+			return false
+		}
+		blockType, _ := blockMap["type"].(string)
+		return blockType == contentTypeToolResult
+	}
+
+	for start := 0; start < len(blocks); {
+		end := start + 1
+		for end < len(blocks) && isResult(blocks[end]) == isResult(blocks[start]) {
+			end++
+		}
+		userMsg, toolMsgs := t.convertUserMessage(blocks[start:end])
+		if userMsg != nil {
+			result = append(result, userMsg)
+		}
+		result = append(result, toolMsgs...)
+		start = end
+	}
+
+	return result
 }
 
 // split user message into text + tool results (openai needs tool results as separate messages)
